@@ -136,6 +136,29 @@ pub fn eval_shared(doc: &ShareDoc, p: Personality, q: &str) -> Canon {
 
 /// Order-insensitive comparison, for a stub whose member order differs from Value's: the same
 /// (path, value) pairs with the same multiplicities.
+/// A query made of names, indexes, slices and unions of those only never enumerates the members of an
+/// object, so its result order cannot depend on the order an implementation lists members in.
+pub fn member_order_independent(q: &str) -> bool {
+    !q.contains('*') && !q.contains("..") && !q.contains('?')
+}
+
+/// For the member-order-shuffled stub: paths and values position by position when the query's order
+/// cannot depend on member order, as multisets otherwise.
+pub fn compare_shuffled(q: &str, want: &Canon, got: &Canon) -> Option<Diff> {
+    if member_order_independent(q) {
+        if let (Ok(w), Ok(g)) = (want, got) {
+            if w.len() == g.len() {
+                for i in 0..w.len() {
+                    if w[i].1 != g[i].1 || w[i].2 != g[i].2 {
+                        return Some(Diff { class: "order-differs".into(), detail: format!("the query enumerates no object members, yet result {} is {} over Value and {} over the member-order-shuffled implementation", i, w[i].1, g[i].1) });
+                    }
+                }
+            }
+        }
+    }
+    compare_multiset(want, got)
+}
+
 pub fn compare_multiset(want: &Canon, got: &Canon) -> Option<Diff> {
     match (want, got) {
         (Ok(w), Ok(g)) => {
@@ -200,7 +223,7 @@ pub fn check_case(c: &Case) -> Option<Diff> {
         let mut locs = HashMap::new();
         sim_locs(&sd, &mut vec![], &mut locs);
         let got = eval_sim(&sd, &locs, Personality(c.personality), &c.query);
-        return compare_multiset(&want, &got.canon);
+        return compare_shuffled(&c.query, &want, &got.canon);
     }
     if c.shared {
         let sd = ShareDoc::from_value(&c.doc);
@@ -343,7 +366,7 @@ struct FamOut {
     nonempty: u64,
     shapes: BTreeSet<(u8, u64)>,
     counts: [u64; simdoc::N_ACC],
-    by_pers: [u64; 8],
+    by_pers: [u64; 16],
     errs: u64,
     first: Option<(u64, Case, Diff)>,
     n_viol: u64,
@@ -352,7 +375,7 @@ struct FamOut {
 }
 
 fn run_family(seed: u64, f: u64, q_per_fam: usize) -> FamOut {
-    let mut out = FamOut { evals: 0, fat_evals: 0, shared_evals: 0, shuffled_evals: 0, nonempty: 0, shapes: BTreeSet::new(), counts: [0; simdoc::N_ACC], by_pers: [0; 8], errs: 0, first: None, n_viol: 0, sample: None, classes: BTreeMap::new() };
+    let mut out = FamOut { evals: 0, fat_evals: 0, shared_evals: 0, shuffled_evals: 0, nonempty: 0, shapes: BTreeSet::new(), counts: [0; simdoc::N_ACC], by_pers: [0; 16], errs: 0, first: None, n_viol: 0, sample: None, classes: BTreeMap::new() };
     let mut rng = Rng::new(derive(seed, "c15fam", f));
     let p = match f % 11 {
         3 => DocParams { max_nodes: 60 + rng.below(60), max_depth: 2 + rng.below(2), names: gen::NAMES_C15, max_width: 14, long_arrays: true },
@@ -371,6 +394,10 @@ fn run_family(seed: u64, f: u64, q_per_fam: usize) -> FamOut {
         // the same subtree at several positions: what a sharing implementation stores once
         let sub = base.clone();
         docs.push(json!({"dflt": sub, "jobs": [{"cfg": sub, "on": true, "off": false, "none": null}, {"cfg": sub, "on": true, "x": null}], "flags": {"a": true, "b": true, "c": null, "d": null}}));
+    }
+    if f % 17 == 3 {
+        // integers next to 2^53 and 2^31, against float-spelled and integer-spelled literals
+        docs.push(json!({"a": [9007199254740993i64, 9007199254740992i64, 9007199254740991i64, -9007199254740993i64, 2147483648i64, 2147483647, 9007199254740992.0, 1e300, 0, -0.0], "n": 9007199254740993i64, "m": 9007199254740992.0}));
     }
     if f % 13 == 5 {
         // the same document under 40-125 levels of nesting (still within what serde_json parses)
@@ -394,6 +421,16 @@ fn run_family(seed: u64, f: u64, q_per_fam: usize) -> FamOut {
         for q in ["$..[?count(@.*) == 4]", "$.jobs[?count(@.*) >= 3]", "$[?count(@..*) > 10]", "$..[?count(@[*]) == 2]", "$..[?count(@.*) == 2]", "$.jobs[?count(@['on','off','none']) == 3]", "$[?count(@.*) != count(@..*)]", "$.jobs[?@.cfg == $.dflt]", "$.jobs[?@.cfg != $.dflt]", "$[?@ == $.dflt]", "$.jobs[?@ == $.jobs[0]]", "$.jobs[?@.cfg == @.cfg]", "$..[?@ == $.flags]"] {
             queries.push(q.to_string());
         }
+    }
+    if f % 17 == 3 {
+        for lit in ["9007199254740992.0", "9007199254740993", "9007199254740992", "2147483648.0", "9.007199254740992e15", "-9007199254740992.0", "0.0", "-0.0"] {
+            for op in ["==", "<", ">=", "!="] {
+                queries.push(format!("$.a[?@ {} {}]", op, lit));
+            }
+        }
+        queries.push("$[?@ == $.n]".to_string());
+        queries.push("$.a[?@ == $.m]".to_string());
+        queries.push("$.a[?@ < $.n]".to_string());
     }
     if f % 13 == 5 {
         for q in ["$..k", "$..[0]", "$..*", "$[?count(@..k) >= 1]", "$..[?@..k]", "$..a"] {
@@ -422,7 +459,7 @@ fn run_family(seed: u64, f: u64, q_per_fam: usize) -> FamOut {
                     let got = eval_sim(&shuf, &shlocs, Personality(pers), q);
                     out.evals += 1;
                     out.shuffled_evals += 1;
-                    if let Some(diff) = compare_multiset(&want, &got.canon) {
+                    if let Some(diff) = compare_shuffled(q, &want, &got.canon) {
                         out.n_viol += 1;
                         *out.classes.entry(diff.class.clone()).or_insert(0) += 1;
                         if out.first.is_none() {
@@ -460,10 +497,10 @@ fn run_family(seed: u64, f: u64, q_per_fam: usize) -> FamOut {
                     }
                 }
             }
-            for pers in 0..8u8 {
+            for pers in [0u8, 1, 2, 3, 4, 5, 6, 7, 8, 15] {
                 let got = eval_sim(&sd, &locs, Personality(pers), q);
                 out.evals += 1;
-                out.by_pers[pers as usize] += 1;
+                out.by_pers[(pers as usize).min(15)] += 1;
                 for i in 0..simdoc::N_ACC {
                     out.counts[i] += got.counts[i];
                 }
@@ -526,7 +563,7 @@ pub fn drive(tier_name: &str, seed: u64, workers: usize) -> i32 {
     let mut nonempty = 0u64;
     let mut shapes: BTreeSet<(u8, u64)> = BTreeSet::new();
     let mut counts = [0u64; simdoc::N_ACC];
-    let mut by_pers = [0u64; 8];
+    let mut by_pers = [0u64; 16];
     let mut errs = 0u64;
     let mut n_viol = 0u64;
     let mut first: Option<(u64, Case, Diff)> = None;
@@ -542,7 +579,7 @@ pub fn drive(tier_name: &str, seed: u64, workers: usize) -> i32 {
         for i in 0..simdoc::N_ACC {
             counts[i] += o.counts[i];
         }
-        for i in 0..8 {
+        for i in 0..16 {
             by_pers[i] += o.by_pers[i];
         }
         errs += o.errs;
